@@ -202,3 +202,34 @@ pub fn accumulator(r_key: &[u8], msg: &[u8]) -> Fe {
     }
     h.reduce()
 }
+
+/// a ciphertext of `len` bytes (a whole number of blocks, >= 16) whose Poly1305 accumulator under the key half `r_key`
+/// ends on an edge value: selector 0..=4 -> p + v (what the final conditional subtraction must handle), otherwise a
+/// limb-edge value (carry chains between limbs). Self-checked with the independent evaluator; None if no block fits.
+pub fn craft_ciphertext(r_key: &[u8], len: usize, sel: usize, rng: &mut crate::prng::Rng) -> Option<(Vec<u8>, String)> {
+    const JS: [u32; 8] = [26, 32, 44, 52, 64, 78, 88, 104];
+    if len < 16 || len % 16 != 0 {
+        return None;
+    }
+    for _try in 0..32 {
+        let (target, name) = if sel % 13 < 5 {
+            (Fe::small((sel % 13) as u64), format!("p+{}", sel % 13))
+        } else {
+            let k = sel % 13 - 5;
+            let j = JS[(k + sel / 13) % JS.len()];
+            let below = sel % 2 == 1;
+            let d = (sel / 2 % 4) as u8;
+            (limb_edge_target(j, below, d, rng.u64() as u128 | (rng.u64() as u128) << 64), format!("2^{}{}", j, if below { "-1-d" } else { "+d" }))
+        };
+        let prefix = rng.bytes(len - 16);
+        if let Some(blk) = solve_block_for(r_key, &prefix, target) {
+            let mut ct = prefix;
+            ct.extend_from_slice(&blk);
+            if accumulator(r_key, &ct) == target.reduce() {
+                return Some((ct, name));
+            }
+            return None;
+        }
+    }
+    None
+}
